@@ -203,7 +203,7 @@ impl WorkerPool {
         let timeout = Duration::from_millis(config.timeout_ms);
 
         loop {
-            if shutdown_flag.load(Ordering::Relaxed) {
+            if shutdown_flag.load(Ordering::Acquire) && rx.is_empty() {
                 tracing::debug!("TCP worker {worker_id} received shutdown signal");
                 break;
             }
@@ -212,7 +212,7 @@ impl WorkerPool {
             let first_packet = match rx.recv_timeout(timeout) {
                 Ok(packet) => packet,
                 Err(RecvTimeoutError::Timeout) => {
-                    if shutdown_flag.load(Ordering::Relaxed) {
+                    if shutdown_flag.load(Ordering::Acquire) && rx.is_empty() {
                         tracing::debug!(
                             "TCP worker {worker_id} received shutdown signal during timeout"
                         );
@@ -356,7 +356,7 @@ impl WorkerPool {
 
     /// Initiates graceful shutdown of the worker pool.
     pub fn shutdown(&self) {
-        self.shutdown_flag.store(true, Ordering::Relaxed);
+        self.shutdown_flag.store(true, Ordering::Release);
         // Drop result sender to signal workers
         if let Ok(mut sender) = self.result_sender.lock() {
             *sender = None;
